@@ -141,6 +141,26 @@ def _pos_scale(d):
     return Rat(d.n.scale(1 / abs(lead)), d.d)
 
 
+INT_APPS = {'shape', 'floordiv', 'len', 'count', 'mod', 'int', 'size', 'match', 'ndim'}
+
+
+def _nan_free(d):
+    """can the compared quantity be NaN?  Not when it is built from index counters (`y@3`), extents, lengths, integer
+    divisions and constants alone: integers have no NaN, so `not (a < b)` IS `b <= a` for them"""
+    for a in d.atoms():
+        if isinstance(a, Sym):
+            if '@' not in a.name:
+                return False
+        elif isinstance(a, App):
+            if a.name not in INT_APPS:
+                return False
+            if a.name in ('floordiv', 'mod', 'int') and not all(_nan_free(x) for x in a.args if isinstance(x, Rat)):
+                return False
+        else:
+            return False
+    return True
+
+
 def neg_cond(c):
     if c[0] == 'not':
         return c[1]
@@ -150,7 +170,7 @@ def neg_cond(c):
             return ('cmp', '!=', c[2], d)
         if op == '!=':
             return ('cmp', '==', c[2], d)
-        if op in ('<', '<=') and os.environ.get('XRSA_REAL_NEGATION') != '1':
+        if op in ('<', '<=') and os.environ.get('XRSA_REAL_NEGATION') != '1' and not _nan_free(d):
             # IEEE: `not (a < b)` is not `b <= a` when one side is NaN - the negation of an ordered comparison stays a negation
             # (the `else` of `if a > b` is taken for NaN); evaluators decide `not` on the value of the comparison
             return ('not', c)
@@ -526,6 +546,8 @@ class Interp:
             return self.as_scalar(v, e)
         if isinstance(e.op, ast.Not):
             return neg_cond(self.cond_of(v, e))
+        if isinstance(e.op, ast.Invert) and isinstance(v, tuple) and v and v[0] in ('cmp', 'and', 'or', 'not', 'truth', 'const'):
+            return neg_cond(v)          # `~mask` of an element-wise test: the element-wise negation
         self.incomplete(e, 'unary op')
 
     def ev_BinOp(self, e):
